@@ -28,8 +28,8 @@ Definition body_data (b : abody) : bytes :=
   match b with ANone => [] | AFixed data => data | AChunked cs _ => chunks_data cs end.
 Definition render_req (r : areq) : bytes := a_head r ++ body_wire (a_body r).
 Definition req_events (r : areq) : list ev :=
-  EvReq (a_method r) (a_target r) (version_of (a_minor r)) (get_all (a_headers r))
-    :: body_ev (body_data (a_body r)) ++ [EvFin].
+  (req_evs (a_method r) (a_target r) (version_of (a_minor r)) (a_headers r)
+     ++ body_ev (body_data (a_body r))) ++ [EvFin].
 
 (* well-formed abstract request under configuration c: syntax of line and fields, header
    block within max_header_size, the connection stays open after it, Host acceptable, and
@@ -37,7 +37,7 @@ Definition req_events (r : areq) : list ev :=
 Definition areq_ok (c : cfg) (r : areq) : Prop :=
   lead_ok (a_lead r) /\ line_ok (a_method r) (a_target r) (a_minor r) /\ Forall hline_ok (a_fields r) /\
   (length (a_head r) <= max_header c)%nat /\
-  can_keep_alive (a_method r) (version_of (a_minor r)) (a_headers r) = Some true /\
+  can_keep_alive (no_keep_alive c) (a_method r) (version_of (a_minor r)) (a_headers r) = Some true /\
   host_check (version_of (a_minor r)) (a_headers r) = HOk /\
   match a_body r with
   | ANone => body_plan (eff_max_body c) (a_headers r) = Some PNone
@@ -56,7 +56,7 @@ Proof.
   pose proof (head_roundtrip _ _ _ _ (a_eol0 r) _ (a_eolF r) LD LN OK) as HP.
   fold (a_head r) in HA, HP. fold (a_headers r) in HP.
   unfold req_events. destruct (a_body r) as [|data|cs z]; cbn [body_wire body_data] in *.
-  - rewrite (accept_no_body c _ _ _ _ _ _ _ true HA HP KA HO BD). reflexivity.
+  - rewrite (accept_no_body c _ _ _ _ _ _ _ true HA HP KA HO BD). cbn [body_ev fst snd]. rewrite app_nil_r. reflexivity.
   - rewrite (accept_content_length c _ _ _ _ _ _ _ true HA HP KA HO _ BD).
     + rewrite Nat2N.id, firstn_app_le, skipn_app_le, firstn_all, skipn_all by lia.
       cbn [fst snd app]. reflexivity.
@@ -89,7 +89,7 @@ Definition ex_req2 : areq :=
      a_fields := [ {| hl_name := s2b "Content-Length"; hl_ows := [32; 32]%N; hl_value := s2b "005"; hl_tws := []; hl_crlf := true |};
                    {| hl_name := s2b "Connection"; hl_ows := []; hl_value := s2b "Keep-Alive"; hl_tws := []; hl_crlf := true |} ];
      a_eolF := false; a_body := AFixed (s2b "hello") |}.
-Definition ex_cfg : cfg := {| max_header := 200; max_body := 64; body_override := None; chunk_pred := 3 |}.
+Definition ex_cfg : cfg := {| max_header := 200; max_body := 64; body_override := None; chunk_pred := 3; no_keep_alive := false |}.
 
 Ltac fin_ok :=
   first [ reflexivity | discriminate | (vm_compute; reflexivity)
